@@ -69,6 +69,61 @@ def variantsB (rec : Schema → Id → Bool) (σ : Space) (deny : Bool) (ss : Li
   decide (ss.length = variants.length) &&
   (ss.zip variants).all (fun sv => variantB rec (structB rec σ) deny sv.1 sv.2.details)
 
+/-- one branch of an externally tagged union: a string enum of data-less variant names, or a closed
+    single-member object `{wire: payload}` -/
+def extBranchB (rec : Schema → Id → Bool) (σ : Space) (deny : Bool) (variants : List Variant) (s : Schema) : Bool :=
+  match s with
+  | .enumVals vs =>
+    vs.all (fun v => match v with
+      | .str w => variants.any (fun vr => vr.wire == w && isSimple vr)
+      | _ => false)
+  | .object [(k, sk)] [k'] .closed =>
+    k == k' &&
+    (match variants.find? (fun vr => vr.wire == k) with
+     | some vr => variantB rec (structB rec σ) deny sk vr.details
+     | none => false)
+  | _ => false
+
+def isClosed : Additional Schema → Bool
+  | .closed => true
+  | _ => false
+
+/-- one branch of an internally tagged union: an object whose `tag` member is a one-value string
+    enum naming the variant; the remaining members are the variant's own -/
+def intBranchB (rec : Schema → Id → Bool) (σ : Space) (deny : Bool) (tg : String) (variants : List Variant)
+    (s : Schema) : Bool :=
+  match s with
+  | .object props req addl =>
+    (match props.find? (fun p => p.1 == tg) with
+     | some (_, .enumVals [.str w]) =>
+       req.contains tg &&
+       (match variants.find? (fun vr => vr.wire == w) with
+        | some vr =>
+          (match vr.details with
+           | .simple => true
+           | .struct ps => structB rec σ (props.filter (fun p => p.1 != tg)) (req.filter (· != tg)) addl ps deny
+           | .item t' => rec (.object (props.filter (fun p => p.1 != tg)) (req.filter (· != tg)) addl) t'
+           | .tuple _ => false)
+        | none => false)
+     | _ => false)
+  | _ => false
+
+/-- one branch of an adjacently tagged union: `{tag: <one-value enum>, content: <payload>}` -/
+def adjBranchB (rec : Schema → Id → Bool) (σ : Space) (deny : Bool) (tg ct : String) (variants : List Variant)
+    (s : Schema) : Bool :=
+  match s with
+  | .object props req addl =>
+    (match props.find? (fun p => p.1 == tg) with
+     | some (_, .enumVals [.str w]) =>
+       req.contains tg &&
+       (!deny || (isClosed addl && props.all (fun p => p.1 == tg || p.1 == ct))) &&
+       (match variants.find? (fun vr => vr.wire == w), props.find? (fun p => p.1 == ct) with
+        | some vr, none => isSimple vr && isClosed addl && tg != ct
+        | some vr, some (_, sc) => req.contains ct && tg != ct && variantB rec (structB rec σ) deny sc vr.details
+        | none, _ => false)
+     | _ => false)
+  | _ => false
+
 /-- one schema construct against one (non-transparent) kind of entry; `rec` is the relation for
     sub-schemas and sub-types -/
 def convD (rec : Schema → Id → Bool) (σ : Space) (s : Schema) (det : Details) : Bool :=
@@ -98,6 +153,18 @@ def convD (rec : Schema → Id → Bool) (σ : Space) (s : Schema) (det : Detail
   | .oneOf [.null, s'], .option t' => rec s' t'
   | .anyOf [s', .null], .option t' => rec s' t'
   | .anyOf [.null, s'], .option t' => rec s' t'
+  | .oneOf ss, .enum _ .external variants deny _ _ =>
+    nodupB (variants.map (·.wire)) && ss.all (extBranchB rec σ deny variants)
+  | .anyOf ss, .enum _ .external variants deny _ _ =>
+    nodupB (variants.map (·.wire)) && ss.all (extBranchB rec σ deny variants)
+  | .oneOf ss, .enum _ (.internal tg) variants deny _ _ =>
+    nodupB (variants.map (·.wire)) && ss.all (intBranchB rec σ deny tg variants)
+  | .anyOf ss, .enum _ (.internal tg) variants deny _ _ =>
+    nodupB (variants.map (·.wire)) && ss.all (intBranchB rec σ deny tg variants)
+  | .oneOf ss, .enum _ (.adjacent tg ct) variants deny _ _ =>
+    nodupB (variants.map (·.wire)) && ss.all (adjBranchB rec σ deny tg ct variants)
+  | .anyOf ss, .enum _ (.adjacent tg ct) variants deny _ _ =>
+    nodupB (variants.map (·.wire)) && ss.all (adjBranchB rec σ deny tg ct variants)
   | .oneOf ss, .enum _ .untagged variants deny _ _ => variantsB rec σ deny ss variants
   | .anyOf ss, .enum _ .untagged variants deny _ _ => variantsB rec σ deny ss variants
   | _, _ => false
